@@ -410,13 +410,13 @@ class SpecGen:
             ords = rng.sample(range(0, min(IMAX[it], 40) + 1), nv)
             vals = [(rng.choice(['A', 'B', 'C', 'Dee', 'None', 'E'][k:k + 1] or ['X']) + ('' if k < 6 else str(k)), str(o)) for k, o in enumerate(ords)]
             e = {'name': name, 'type': it, 'values': vals}
-            t[rng.choice(['', '', 'pub'])]['enums'].append(e)
+            t['']['enums'].append(e)       # enums live in the root file: every directory may refer to them without creating a cycle
             self.enums.append(e)
         for _ in range(rng.randrange(2, 6)):
             name = self.fresh('Rec')
             h = home()
             # generated packages import each other per directory: keep the directory reference graph acyclic (as eo-protocol does)
-            self.rank = max(RANK[h], 1)
+            self.rank = RANK[h]
             all_structs = self.structs
             self.structs = [x for x in all_structs if x[4] <= self.rank]
             body, info = self.body(top=True, depth=0, cls=name)
